@@ -37,7 +37,7 @@ CHECKS["C13"] = dict(
     design="6/C13", technique="Coq proof (closed-set reachability over the finite control skeleton + inductive clocked invariant) + model-derived trace predicate evaluated on virtual-time traces of the real lister")
 
 CHECKS["C04"] = dict(
-    text="Small-step model of server stream x watch session x watcher.run x controller watch case (entries as positions of the server log): the pipeline invariant (applied ++ channel = log up to the last entry taken, session buffer continues it) proved inductive over every action sequence (server changes, deliveries, stream closes, connect errors, non-object frames, reconnects); corollaries: applied is a duplicate-free prefix of the log, a reconnect resumes right after the last entry taken and keeps the output channel, no step discards a received entry, and in every quiescent state the whole log has been applied (no relist needed). The model includes the relist's reset (new output channel, curVersion := list version: nothing_stale_after_reset, reset_heals) and the two bounded, non-blocking buffers (an entry is lost only when it finds a buffer full: loss_needs_full_buffer; whatever was lost, what is applied is in log order without duplicates; the exact statements hold while nothing was lost since the last list); busy_burst_closed_form gives the outcome of the deterministic overflow history, which the harness replays on the code. Correspondence: the whole controller against a fake API server in synctest virtual time with refresh period 10^6 s, each fault at every position of a base history plus random histories, perturbed schedules; cache at quiescence vs the extracted quiescent outcome (list, then the log in order), subscriber mirror, controller liveness.",
+    text="Small-step model of server stream x watch session x watcher.run x controller watch case (entries as positions of the server log): the pipeline invariant (applied ++ channel = log up to the last entry taken, session buffer continues it) proved inductive over every action sequence (server changes, deliveries, stream closes, connect errors, non-object frames, reconnects); corollaries: applied is a duplicate-free prefix of the log, a reconnect resumes right after the last entry taken and keeps the output channel, no step discards a received entry, and in every quiescent state the whole log has been applied (no relist needed); watch_in_order_converges / watch_quiescent_is_server_state: a cache equal to the server's accepted view at a list's version that applies the later log entries in order equals the accepted view at the end, so at quiescence (nothing lost) the controller's cache IS the server state. The model includes the relist's reset (new output channel, curVersion := list version: nothing_stale_after_reset, reset_heals) and the two bounded, non-blocking buffers (an entry is lost only when it finds a buffer full: loss_needs_full_buffer; whatever was lost, what is applied is in log order without duplicates; the exact statements hold while nothing was lost since the last list); busy_burst_closed_form gives the outcome of the deterministic overflow history, which the harness replays on the code. Correspondence: the whole controller against a fake API server in synctest virtual time with refresh period 10^6 s, each fault at every position of a base history plus random histories, perturbed schedules; cache at quiescence vs the extracted quiescent outcome (list, then the log in order), subscriber mirror, controller liveness.",
     note="Model of the code after the fix: commits for D4 and D8.",
     design="6/C04", technique="Coq proof (inductive invariant over the watch pipeline LTS, quiescence theorem) + quiescent-outcome correspondence under injected watch faults in virtual time")
 
